@@ -865,6 +865,7 @@ class PathRun:
         fr = self.frames[-1]
         saved = dict(fr.locs)
         self.spec_mode += 1      # element expression must be pure
+        self.ex.bound = self.ex.bound + [k]
         try:
             item = V(z3.Select(self.ex.list_arr(src), k), src.ty.elem)
             self.bind_target(g.target, item)
@@ -872,6 +873,7 @@ class PathRun:
             val = self.evalv(elt)
         finally:
             self.spec_mode -= 1
+            self.ex.bound = self.ex.bound[:-1]
             fr.locs = saved
         if not conds:
             arr = z3.Lambda([k], val.t)
